@@ -1,6 +1,7 @@
 import VermouthModel.Proto
 import VermouthModel.C04
 import VermouthModel.C19_Repair
+import VermouthModel.C04_Ref
 open Proto Iso C04
 
 def attrOf (t : Tok) : Option (String × String) := do
@@ -51,6 +52,70 @@ def encEvent : Event → String
   | .adding _ n h => encList [encStr "adding", encStr n, encBool h]
   | .lost n => encList [encStr "lost", encStr n]
 
+
+/-! ### `make_reference` / `_get_reference_residue` / pipeline (VermouthModel/C04_Ref.lean) -/
+
+def ratomOf (t : Tok) : Option Ref.RAtom := do
+  match ← t.list? with
+  | [k, n, e] =>
+      let nm ← (match n with
+        | Tok.none => some Ref.AName.pyNone
+        | Tok.int _ => some Ref.AName.absent
+        | Tok.str s => some (Ref.AName.str s)
+        | _ => none)
+      pure { key := ← k.int?, name := nm, elem := ← e.optInt? }
+  | _ => none
+
+def optStrs (t : Tok) : Option (Option (List String)) :=
+  match t with
+  | Tok.none => some none
+  | _ => (strs? t).map some
+
+def blockOf (bn be : Tok) : Option Block := do
+  pure { nodes := ← (← bn.list?).mapM atomOf, edges := ← pairsOf be }
+
+def namedBlocks (t : Tok) : Option (List (String × Block)) := do
+  (← t.list?).mapM fun x => do
+    match ← x.list? with
+    | [n, bn, be] => pure (← n.str?, ← blockOf bn be)
+    | _ => none
+
+def ffOf (blocks mods : Tok) : Option C19.Repair.FF := do
+  pure { blocks := ← namedBlocks blocks, mods := ← namedBlocks mods }
+
+def reqOf (t : Tok) : Option Ref.ResReq := do
+  match ← t.list? with
+  | [f, rn, mu, md, c, ans] =>
+      pure { found := ← ints? f, resname := ← rn.str?, mutation := ← optStrs mu, modification := ← optStrs md,
+             common := ← (← c.list?).mapM attrOf, answers := ← (← ans.list?).mapM pairsOf }
+  | _ => none
+
+def natPairOf (t : Tok) : Option (Nat × Nat) := do
+  match ← t.list? with
+  | [u, v] => pure (← u.nat?, ← v.nat?)
+  | _ => none
+
+def encMkErr : Ref.MkErr → String
+  | .noName _ => "error no-name"
+  | .noAlpha _ => "error no-alpha"
+  | .nameIsNone _ => "error name-none"
+  | .badAnswer => "error bad-answer"
+
+def encGErr : Ref.GErr → String
+  | .mutateTwice => "error mutate-twice"
+  | .emptyMutation => "error empty-mutation"
+  | .unknownBlock n => "error unknown-block " ++ encStr n
+  | .unknownModification n => "error unknown-modification " ++ encStr n
+  | .doesNotFit n => "error does-not-fit " ++ encStr n
+
+def encGraph (g : Graph) : List String :=
+  [encList (g.nodes.map fun p => encList [encInt p.1, encInt p.2]),
+   encList ((canonEdges (g.edges.map fun e => (e.1, e.2.1))).map encPair)]
+
+def encMap (M : Map) : String := encList (M.map encPair)
+
+def posIn (l : List Int) (k : Int) : Nat := l.findIdx (· == k)
+
 def handle (_ : Unit) (toks : List Tok) : Unit × String :=
   let r : Option String :=
     match toks with
@@ -73,6 +138,47 @@ def handle (_ : Unit) (toks : List Tok) : Unit × String :=
         | none => pure "does-not-fit"
         | some b' => pure (encList (b'.nodes.map fun a => encList [encInt a.key, encStr a.name])
                            ++ " " ++ encList ((canonEdges b'.edges).map encPair))
+    | [Tok.str "mkref", ra, re, fa, fe, ans] => do
+        let res ← (← ra.list?).mapM ratomOf
+        let ref ← (← fa.list?).mapM ratomOf
+        let answers ← (← ans.list?).mapM pairsOf
+        match Ref.makeRef res ref (← pairsOf re) (← pairsOf fe) answers with
+        | .error e => pure (encMkErr e)
+        | .ok o =>
+          let matrix := match Ref.addElements ref, Ref.addElements res with
+            | .ok ref', .ok res' => ref'.map fun r => encStr (String.ofList (res'.map fun s => if Ref.nodeMatch r s then '1' else '0'))
+            | _, _ => []
+          pure (" ".intercalate ([encList (o.resNew.map fun p => encInt p.1), encList (o.refNew.map fun p => encInt p.1)]
+                  ++ encGraph o.resCopy ++ encGraph o.refCopy
+                  ++ [encList matrix, match o.mtch with | none => "-" | some M => encMap M]))
+    | [Tok.str "getref", rn, mu, md, blocks, mods] => do
+        match Ref.getRef (← ffOf blocks mods) (← rn.str?) (← optStrs mu) (← optStrs md) with
+        | .error e => pure (encGErr e)
+        | .ok b => pure (encList (b.nodes.map encAtom) ++ " " ++ encList ((canonEdges b.edges).map encPair))
+    | [Tok.str "pipeline", ns, es, blocks, mods, reqs, redges] => do
+        let m : Mol := { nodes := ← (← ns.list?).mapM atomOf, edges := ← pairsOf es }
+        let qs ← (← reqs.list?).mapM reqOf
+        match Ref.pipeline (← ffOf blocks mods) m qs (← (← redges.list?).mapM natPairOf) with
+        | .error (.ref i e) => pure ("residue " ++ encNat i ++ " " ++ encGErr e)
+        | .error (.mk i .badAnswer) => pure ("residue " ++ encNat i ++ " " ++ encMkErr .badAnswer)
+        | .error (.mk i _) => pure ("residue " ++ encNat i ++ " error no-element")
+        | .ok o =>
+          pure (" ".intercalate [encList (o.mol.nodes.map encAtom), encList ((canonEdges o.mol.edges).map encPair),
+                                 encList (o.mtchs.map encMap), encList (o.log.map encEvent),
+                                 encList (o.kept.map encNat),
+                                 encList ((canonEdges (o.refEdges.map fun e => ((e.1 : Int), (e.2 : Int)))).map encPair)])
+    | [Tok.str "mcismem", gn, ge, sn, se, mts] => do
+        -- size of a maximum common induced subgraph, and for each map (any order): is it one of them?
+        let g ← graphOf gn ge
+        let sg ← graphOf sn se
+        let Ms ← (← mts.list?).mapM pairsOf
+        let P := graphProblem g sg (colourPred g sg)
+        let size := mcisSize g sg
+        let oks := Ms.map fun M =>
+          let M' := M.mergeSort fun p q => posIn sg.keys p.1 ≤ posIn sg.keys q.1
+          M'.length == size && (M'.map Prod.fst).Pairwise (· ≠ ·) && (M'.map Prod.fst).all (sg.keys.contains ·)
+            && (isosOn P (M'.map Prod.fst)).contains M'
+        pure (encNat size ++ " " ++ encList (oks.map encBool))
     | [Tok.str "connected", bn, be] => do
         let b : Block := { nodes := ← (← bn.list?).mapM atomOf, edges := ← pairsOf be }
         pure (encBool (connectedB b))
